@@ -184,7 +184,7 @@ B1O_PAIR_CAP = 1500     # ... per generated b1o.<order> / b1u.<pairs> scenario (
 # a seeded sample keeps the thorough tier inside its 30 minutes
 SCN_PAIR_CAP = {"oscobs": 8000, "echo": 6000}
 SCENARIOS = ["uri", "pdu", "rr", "b1", "b2", "obs", "setup", "osc", "h508", "wkc", "b1raw", "b2raw", "obsblk", "cache", "async", "obsre",
-             "obsfetch", "oscobs", "echo"]
+             "obsfetch", "oscobs", "echo", "xtok"]
 # parametrised scenario b1o.<digits>: the five hand-built Block1 requests of b1raw in a generated order (repeats allowed);
 # these two always run (the final block early, and again before the gap is filled / a repeated middle block, a block after the end)
 B1O_FIXED = ["b1o.0442130", "b1o.4400123312"]
@@ -212,6 +212,7 @@ EXPECT0 = {
     "obsre": "subs1,notify1,subs2,notify1,subs1,notify1,delres1,req8,rsp9,c2.05,c2.05,c2.05,c2.05,c2.05,c2.05,c2.05,c2.05,c4.04,nack0,body0/0,put0/0",
     "oscobs": "subs1,notify1,subs1,notify1,cancel1,subs0,notify0,req5,rsp5,c2.05,c2.05,c2.05,c2.05,c2.05,nack0,body0/0,put0/0",
     "echo": "subs1,notify1,cancel1,subs0,req11,rsp6,c2.05,c2.05,c2.05,c2.05,c2.05,c2.05,nack0,body0/0,put0/0",
+    "xtok": "req2,rsp2,c2.05,c2.05,nack0,body0/0,put0/0",
     "obsfetch": "subs1,notify1,subs2,notify1,cancel1,subs1,cancel1,subs0,notify0,req7,rsp7,c2.05,c2.05,c2.05,c2.05,c2.05,c2.05,c2.05,nack0,body0/0,put0/0",
 }
 
